@@ -33,4 +33,18 @@ META['C07'] = {
     'technique': 'Coq totality/soundness proof of a panic-annotated parser model + extracted-model correspondence on malformed inputs',
 }
 
+META['C02'] = {
+    'text': ("Machine-checked proof (Coq), for an arbitrary hash function: the model of the hashing loop of "
+             "newImmutableCell (hash index / offset bookkeeping, pruned-branch stored hashes, Merkle child level +1, "
+             "descriptor bytes, completion tag, depth limit) returns at every level 0..3 (and above) exactly the hash and "
+             "depth of a declarative recursion-on-level definition of the TON representation hash on cell trees, for all "
+             "trees with masks 0..7 and all five cell types; evaluating a shared cell array once per cell (the cache) "
+             "equals evaluating the unfolded tree. The extracted model with a Gallina SHA-256 is compared with the "
+             "implementation at all four levels on generated exotic DAGs and on real blocks."),
+    'design_ref': 'DESIGN.md §6 C02',
+    'note': ("Trusted: Coq kernel, extraction, drivers, Go harness, the hand-written declarative spec (from the TON "
+             "whitepaper / DataCell.cpp rules). The model is tied to the Go code by correspondence."),
+    'technique': 'Coq proof: implementation loop = declarative spec (8-mask case analysis lifted over all trees) + extracted-model correspondence',
+}
+
 NOT_APPLICABLE = []
